@@ -295,6 +295,8 @@ pub fn all() -> Vec<Prop> {
                 // All 2^16 mux header values in the thorough tier (run i sends header value i).
                 b.push(Batch { engine: "pipe", mode: "mux-header", runs: if t == "thorough" { 65536 } else { 4096 } });
                 b.push(Batch { engine: "pipe", mode: "muxflood", runs: if t == "thorough" { 20_000 } else { 300 } });
+                // Whole node, authenticated greedy peer which also announces absurd block-store ranges.
+                b.push(Batch { engine: "node", mode: "limits", runs: if t == "thorough" { 10_000 } else { 300 } });
                 b
             },
             expected_probes: || vec![],
